@@ -381,6 +381,11 @@ def run_batch(prop: str, engine: str, tier: str, base_seed: int, plan: dict) -> 
         f"violations={len(vio)} (new={len(new_violations)}) harness={len(harness_errors)} nontrivial={len(nontrivial_hashes)} "
         f"ops={ops_total} checks={checks_total} faults={dict(faults_fired)} wall={wall:.1f}s"
     )
+    if evaluations and status.get("discard", 0) > 0.1 * evaluations:
+        # not a verdict, but never silent: an oracle that cannot observe what it needs (a renamed private attribute, a
+        # guard of the harness itself that misfires) shows up here first
+        top = sorted(coverage.get("discards", {}).items(), key=lambda kv: -kv[1])[:3]
+        print(f"NOTE: {status['discard']} of {evaluations} runs ended without a verdict: " + "; ".join(f"{k} ({v})" for k, v in top))
     if harness_errors:
         for h in harness_errors[:5]:
             print("HARNESS-ERROR:", h[:3000], file=sys.stderr)
